@@ -35,6 +35,8 @@ def render_file(lines, dialect, fno):
         elif k == "fwd":
             out.append("\t%s\tfw%d_%d" % (dl["jump"], fno, i))
             out.append("fw%d_%d:" % (fno, i))
+        elif k == "undef":
+            out.append("\t%s\tnosym%d_%d" % (dl["jump"], fno, i))
         elif k in ("burstE", "burstW", "burstU"):
             body = {"burstE": "bogus", "burstW": dl["warn"], "burstU": "warning \"w%d\"" % i}[k]
             out += ["\trept\t%d" % ln["n"], "\t" + body, "\tendm"]
@@ -240,6 +242,10 @@ def render_hist_file(lines, dialect, fno, defs=True):
                 out.append("\tcharset\t'a',1")
             elif f == "sym":
                 out.append("lkflag\tequ\t5")
+            elif f == "macro":
+                out += ["lkum\tmacro", "\t" + dl["ok"], "\tendm"]
+            elif f == "func":
+                out.append("lkuf\tfunction x,x+1")
             elif f == "cpu":
                 new = dl["other"]
                 out.append("\tcpu\t" + new)
@@ -268,6 +274,13 @@ def render_hist_file(lines, dialect, fno, defs=True):
                 out.append("\t" + dl["byte"] % ("DEFINED(lkflag)+%d" % (2 * i)))
             elif f == "cpu":
                 out.append("\t" + dl["ok"])
+            else:
+                raise ValueError(ln)
+        elif k == "use":
+            if ln["f"] == "macro":
+                out.append("\tlkum")
+            elif ln["f"] == "func":
+                out.append("\t" + dl["byte"] % "lkuf(1)")
             else:
                 raise ValueError(ln)
         elif k == "open":
